@@ -30,7 +30,7 @@ import translate  # noqa: E402
 
 # which Lean property files carry the theorems of each property
 PROPERTY_FILES = {
-    "C01": ["C01", "SrcLin", "FullLin", "FullApi"], "C02": ["C02", "SrcHll", "FullHll", "FullApi"], "C03": ["C03", "SrcHH", "FullHH", "SrcHHQ", "FullApi"], "C04": ["C04", "SrcHH", "FullHH"],
+    "C01": ["C01", "SrcLin", "FullLin", "FullApi", "EndToEnd"], "C02": ["C02", "SrcHll", "FullHll", "FullApi", "EndToEnd"], "C03": ["C03", "SrcHH", "FullHH", "SrcHHQ", "FullApi", "EndToEnd"], "C04": ["C04", "SrcHH", "FullHH", "EndToEnd"],
     "C05": ["C05", "C05Log", "SrcLin", "FullLin", "FullLog", "FullApi"],
     "C06": ["C06", "C06Unbias", "C09Link", "SrcRand", "FullLog"], "C07": ["C07", "FullEst"], "C08": ["C08", "C08Compose", "SrcPar"], "C09": ["C09", "C09Link", "SrcLin", "FullLin"],
     "C10": ["C10", "SrcSchema"],
